@@ -44,7 +44,7 @@ def run(tier, seed):
         segs = sorted(n for n in lib.SEGMENTS if n not in ex.get(v, []))
         isfull = v in full
         if not isfull:
-            segs = rng.sample(segs, 8)
+            segs = rng.sample(segs, min(len(segs), 8))
         allfields = sorted(lib.FIELDS)
         for S in segs:
             rows = lib.SEGMENTS[S][1]
